@@ -200,8 +200,8 @@ impl<'a> A<'a> {
     fn du1(&self) -> SignedDuration {
         let (s, n) = self.a.du1;
         self.lim(s <= i64::MIN + 1 || s >= i64::MAX - 1);
-        // SignedDuration::new panics when the nanoseconds carry past the limits (documented)
-        let n = if (s == i64::MIN && n < 0) || (s == i64::MAX && n > 0) { 0 } else { n };
+        // (|n| < 10^9 here, so `new` never has to carry past the limits, which would panic as
+        // documented; MIN with negative nanos and MAX with positive nanos are the extreme values)
         SignedDuration::new(s, n)
     }
     fn udur(&self) -> std::time::Duration {
@@ -578,6 +578,12 @@ pub static ROWS: &[Row] = rows![
     "ISOWeekDate::new" => |a| res(ISOWeekDate::new(a.y(), a.b(0), a.wd())),
     "Date::iso_week_date" => |a| val(a.d1().iso_week_date()),
     "Date::series" => |a| series(a.d1().series(a.sp1())),
+    "ISOWeekDate::first_of_week" => |a| res(a.d1().iso_week_date().first_of_week()),
+    "ISOWeekDate::last_of_week" => |a| res(a.d1().iso_week_date().last_of_week()),
+    "ISOWeekDate::first_of_year" => |a| res(a.d1().iso_week_date().first_of_year()),
+    "ISOWeekDate::last_of_year" => |a| res(a.d1().iso_week_date().last_of_year()),
+    "ISOWeekDate::tomorrow" => |a| res(a.d1().iso_week_date().tomorrow()),
+    "ISOWeekDate::yesterday" => |a| res(a.d1().iso_week_date().yesterday()),
     // ---- civil::Time
     "Time::new" => |a| res(Time::new(a.b(0), a.b(1), a.b(2), a.w())),
     "Time::checked_add(Span)" => |a| res(a.t1().checked_add(a.sp1())),
@@ -788,6 +794,25 @@ pub static ROWS: &[Row] = rows![
         None => res(SignedDuration::try_from(a.sp1())),
         Some(r) => res(a.sp1().to_duration(r)),
     }),
+    "Duration::try_from(Span)" => |a| res(std::time::Duration::try_from(a.sp1())),
+    "SignedDuration::system_until" => |a| {
+        let d = a.udur();
+        let (t1, t2) = if a.sel() & 1 == 0 { (std::time::UNIX_EPOCH.checked_add(d), std::time::UNIX_EPOCH.checked_sub(d)) } else { (std::time::UNIX_EPOCH.checked_sub(d), std::time::UNIX_EPOCH.checked_add(d)) };
+        match (t1, t2) {
+            (Some(t1), Some(t2)) => res(SignedDuration::system_until(t1, t2)),
+            _ => "n/a".into(),
+        }
+    },
+    "Zoned::try_from(SystemTime)" => |a| {
+        let d = a.udur();
+        let st = if a.sel() & 1 == 0 { std::time::UNIX_EPOCH.checked_add(d) } else { std::time::UNIX_EPOCH.checked_sub(d) };
+        match st {
+            // (the system time zone is whatever this machine has; only totality and range are judged,
+            // both builds see the same configuration)
+            Some(st) => res(Zoned::try_from(st).map(|z| z.timestamp())),
+            None => "n/a".into(),
+        }
+    },
     "Span::try_from(SignedDuration)" => |a| res(Span::try_from(a.du1())),
     "Span::try_from(Duration)" => |a| res(Span::try_from(a.udur())),
     // ---- SignedDuration
@@ -797,6 +822,8 @@ pub static ROWS: &[Row] = rows![
     "SignedDuration::try_from(Duration)" => |a| res(SignedDuration::try_from(a.udur())),
     "Duration::try_from(SignedDuration)" => |a| res(std::time::Duration::try_from(a.du1())),
     // ---- Offset
+    "Offset::try_from(SignedDuration)" => |a| res(Offset::try_from(a.du1())),
+    "TimeZone::to_fixed_offset" => |a| res(a.tz1().to_fixed_offset()),
     "Offset::from_hours" => |a| res(Offset::from_hours(a.b(0))),
     "Offset::from_seconds" => |a| res(Offset::from_seconds(a.w())),
     "Offset::checked_add(Span)" => |a| res(a.off1().checked_add(a.sp1())),
